@@ -221,6 +221,37 @@ func (w *writerA) poolPlumbing() {
 	}
 }
 
+// bufferIdentity: between beginMessage (Get) and endMessage (Put) Conn.writeBuf
+// is the same slice: the field is assigned only by newConn, beginMessage and
+// endMessage (and by the function that builds a private rendering Conn in a
+// literal).  A writer method that swaps in another buffer hands the pool a
+// buffer it never gave out and drops the one it did.
+func (w *writerA) bufferIdentity() {
+	c, r := w.c, w.c.R
+	allowed := map[*ssa.Function]bool{c.fn("newConn"): true, w.begin: true, w.end: true}
+	n := 0
+	for _, st := range c.P.FieldStoreSites(w.writeBuf) {
+		n++
+		okS := true
+		for _, h := range c.hostsOf(st.Parent()) {
+			if allowed[h] {
+				continue
+			}
+			// a Conn allocated by the storing function itself (the private rendering connection of a PreparedMessage)
+			if fa, isFA := st.Addr.(*ssa.FieldAddr); isFA {
+				if _, isNew := fa.X.(*ssa.Alloc); isNew {
+					continue
+				}
+			}
+			okS = false
+		}
+		r.Check("C20.put-once", shortFn(st.Parent()), "writer-of-Conn.writeBuf", st.Pos(), okS, "Conn.writeBuf is assigned only by newConn, beginMessage and endMessage: the buffer taken from the pool is the one returned to it")
+	}
+	if n < 3 {
+		r.Fail("C20.put-once", "", "writers-of-Conn.writeBuf", w.begin.Pos(), "fewer than 3 stores of Conn.writeBuf found")
+	}
+}
+
 // writeErrorEndsMessage: WriteMessage (and applications following the
 // io.Writer contract) give up on a message when Write fails, without calling
 // Close: every non-nil error returned by Write / WriteString / ReadFrom is
